@@ -13,8 +13,19 @@ import tempfile
 from harness import common, kgen, kmodel, kprop, krun
 
 PID = 'C13'
-RENDERINGS = ['dynamic', 'static-meta', 'static-decorator']
+RENDERINGS = ['dynamic', 'static-meta', 'static-decorator', 'mixed']
+OPS_A = [{'name': 'describe', 'params': []}, {'name': 'scale', 'params': [{'name': 'k', 'required': True}, {'name': 'unit', 'required': False}]}]
+OPS_A2 = [{'name': 'describe', 'params': [{'name': 'verbose', 'required': False}]}]
+OPS_B = [{'name': 'ping', 'params': []}]
 PROJ = {'outcome', 'values', 'isset', 'ownership', 'log', 'views'}
+
+
+def set_render(case, render):
+    if render == 'mixed':
+        case['render'] = 'dynamic'
+        case['render_mixed'] = True
+    else:
+        case['render'] = render
 
 
 def canon_step(case, step):
@@ -41,7 +52,16 @@ def description(world):
             feats.append((f.name, type(f).__name__, tn, f.many,
                           f.ordered, f.unique, getattr(f, 'containment', None),
                           (opp.eContainingClass.name, opp.name) if opp is not None else None, f.lowerBound, f.upperBound))
+        def sig(op):
+            ps = [(p.name, bool(p.required)) for p in op.eParameters]
+            if ps and ps[0][0] == 'self':
+                ps = ps[1:]          # static reflection lists the receiver; the declaration does not
+            return (op.name, tuple(ps))
+        fd_ = ec.findEOperation('describe')
         d[name] = {'name': ec.name, 'abstract': bool(ec.abstract), 'supers': [s.name for s in ec.eSuperTypes],
+                   'operations': sorted(sig(o) for o in ec.eOperations),
+                   'all_operations': sorted(sig(o) for o in ec.eAllOperations()),
+                   'find_describe': sig(fd_) if fd_ is not None else None,
                    'all_supers': sorted(s.name for s in ec.eAllSuperTypes()),
                    'features': sorted(feats),
                    'all_features': sorted(f.name for f in ec.eAllStructuralFeatures())}
@@ -118,13 +138,15 @@ def run(ctx, out):
     for i in range(n):
         case = kgen.gen_case(ctx.rng, nops=10 if not thorough else 14)
         case['history'] = [op for op in case['history'] if op[0] in kmodel.MODELLED]
+        for c in case['mm']['classes']:
+            c['operations'] = {'A': OPS_A, 'A2': OPS_A2, 'B': OPS_B}.get(c['name'], [])
         case, r0 = kprop.clean_case(case, [], True)
         stats['cases'] += 1
         distinct.add(repr((case['templates'], case['history'])))
         runs = {'dynamic': r0}
         for render in RENDERINGS[1:]:
             c2 = copy.deepcopy(case)
-            c2['render'] = render
+            set_render(c2, render)
             try:
                 runs[render] = krun.Run(c2, [], observe_views=True).run()
             except Exception as e:  # noqa
@@ -172,7 +194,7 @@ def run(ctx, out):
         descs = {}
         for render in RENDERINGS:
             c2 = copy.deepcopy(case)
-            c2['render'] = render
+            set_render(c2, render)
             c2['history'] = []
             descs[render] = description(kimpl.World(c2, observers=False))
         for render in RENDERINGS[1:]:
@@ -212,7 +234,7 @@ def replay(ctx, rep):
     res = {}
     for render in RENDERINGS:
         c2 = copy.deepcopy(case)
-        c2['render'] = render
+        set_render(c2, render)
         r = krun.Run(c2, [], observe_views=True).run()
         res[render] = [canon_step(case, s) for s in r.steps]
         print(render, [s['outcome'] for s in r.steps])
